@@ -39,6 +39,9 @@ def check(run):
         import casrules
         run.rule('CAS.form', casrules.RULE)
         n = casrules.check_rolling(run, run.facts('base'), ('binary.rs', 'reg.rs'))
+        run.rule('VAR.floor', casrules.FLOOR_RULE)
+        nf_ = casrules.check_floors(run, run.facts('base'), ('binary.rs',))
+        run.floor('VAR.floor', 'variance floors', nf_, 2)
         run.floor('CAS.form', 'closed forms compared with their reference', n, 12)
     # every container the generic code can be instantiated with hands out its elements in logical order
     from common import dep_backends as _dep_backends
